@@ -28,8 +28,10 @@ class Model(SOCModel):
         self.lin_constr = []
         self.pws_constr = []
         self.cone_constr = []
+        self.ip_constr = []
         self.exp_constr = []
         self.other_constr = []
+        self.det_constr = []
         self.bounds = []
         self.aux_constr = []
         self.aux_bounds = []
